@@ -18,15 +18,26 @@ type CLIResult struct {
 
 type CLIOpts struct {
 	Config string // contents of config.ini
+	Script []gotime.Time // successive clock readings (overrides Now)
 	Now    gotime.Time
 	Cpus   int
 	Env    map[string]string
 }
 
 var cliNow gotime.Time
+var cliNowScript []gotime.Time // successive readings; the last one repeats
+var cliNowCalls int
 
 func init() {
 	app.VerifNow = func() (gotime.Time, bool) {
+		if len(cliNowScript) > 0 {
+			i := cliNowCalls
+			cliNowCalls++
+			if i >= len(cliNowScript) {
+				i = len(cliNowScript) - 1
+			}
+			return cliNowScript[i], true
+		}
 		if cliNow.IsZero() {
 			return gotime.Time{}, false
 		}
@@ -60,7 +71,8 @@ func runCLI(env *Env, o CLIOpts, args ...string) CLIResult {
 		return res
 	}
 	cliNow = o.Now
-	defer func() { cliNow = gotime.Time{} }()
+	cliNowScript, cliNowCalls = o.Script, 0
+	defer func() { cliNow = gotime.Time{}; cliNowScript = nil }()
 	res.Stdout = captureStdout(func() {
 		res.Panic = safely(func() {
 			code, err := klogmain.Run(home, app.Meta{Version: "v0", SrcHash: "abc1234"}, cfg, args)
